@@ -265,18 +265,22 @@ def outcome (kind contract method via op ow du pr po : String) (signers : List A
     | .operatorOrDue => operator
     | .ownerParam => owner
     | .none => []
-  let body : Prog := if post = "ok" then .put [1] [1] (.ret [1]) else if post = "panic" then .log "panic" .fail else .fail
+  let bodyOf (p : String) : Prog := if p = "ok" then .put [1] [1] (.ret [1]) else if p = "panic" then .log "panic" .fail else .fail
+  -- a `seq` line gives the outcome of the first body and of both: <first>/<both>
+  let (post1, post2) := match post.splitOn "/" with
+    | [a, b] => (a, b)
+    | _ => (post, post)
   -- validation some handlers perform before asking for the witness fails for every signer alike
-  let target : Handler := fun _ => if pre = "ok" then guarded g required (due = "1") body else .fail
+  let target (p : String) : Handler := fun _ => if pre = "ok" then guarded g required (due = "1") (bodyOf p) else .fail
   let reg : Registry := fun a =>
-    if a = addrT then some [(ascii "m", target)]
+    if a = addrT then some [(ascii "m", target post1), (ascii "m2", target post2)]
     else if a = addrA ∨ a = addrB then some [(ascii "relay", relayHandler), (ascii "seq", seqHandler)]
     else none
   -- the transaction's payer field is not a witness: the model does not look at it
   let direct := encodeParam addrT (ascii "m") []
   let code :=
     if kind = "seq" then
-      encodeParam addrA (ascii "seq") (varBytes direct ++ varBytes (relayCode [addrB] direct))
+      encodeParam addrA (ascii "seq") (varBytes direct ++ varBytes (relayCode [addrB] (encodeParam addrT (ascii "m2") [])))
     else relayCode via direct
   let tx : Tx := { signers := signers, code := code, chainOk := true }
   let res := (execTx leafHash reg { base := [], height := 1, time := 1 } { overlay := [], cache := [] } tx).2
